@@ -304,4 +304,8 @@ example : AdmissibleFresh ⟨none, 100⟩ [0, 10, 150, 200, 1000] := by
 example : run ⟨none, 100⟩ [0, 10, 150, 200, 1000] = [0, 100, 200, 300, 1000] := by
   simp [run, getTimeout, release]
 
+/-! Non-vacuity of `release_exact` / `idle_passes`: an early call and a call two slots late. -/
+example : release 10 (getTimeout ⟨some 0, 100⟩ 10).2 = max 10 (0 + 100) ∧ (0 : Int) < 100 ∧ (0 : Int) ≤ 10 := by decide
+example : release 250 (getTimeout ⟨some 0, 100⟩ 250).2 = 250 ∧ (getTimeout ⟨some 0, 100⟩ 250).1.prev = some 200 := by decide
+
 end GufoSnmp.Policer
